@@ -888,6 +888,17 @@ def name_sets(rng, fold, quick=True):
             # an empty string is a path that names nothing: expressed as a single slash
             names = [n if n else "/" for n in names]
             batches.append((names, []))
+    # (c2) shapes with dots: 1-, 2-, 3- and 4-byte characters as first character, just before the last dot and in the extension
+    shapes = []
+    for first in ("a", "\u00e9", "\u65e5", "\U0001F600", "\u017c"):
+        for body in ("", "b", "\u00f3\u0142\u0107", "\u672c\u8a9e", "b\u00e9", "\u00e9b", "bc\u0444"):
+            for ext in (".txt", ".t", ".\u00e9", "", ".a.b", ".\u65e5\u672c", ".tar.gz"):
+                shapes.append(first + body + ext)
+    shapes += ["\u00e9.\u00e9.\u00e9", ".\u00e9", "\u00e9.", "\u00e9..txt", "\u0444\u0430\u0439\u043b.txt", "\u017c\u00f3\u0142\u0107.txt", "\u65e5a.txt", "\u65e5ab.txt"]
+    shapes = sorted(set(shapes))
+    rng.shuffle(shapes)
+    for i in range(0, len(shapes), 12):
+        batches.append((shapes[i:i + 12], [("open", x.upper()) for x in shapes[i:i + 12][:3]]))
     # (d) case pairs and near misses
     keys = sorted(int(k) for k in fold)
     pick = keys if not quick else keys[::9] + [223, 454, 0x149, 0x1F0, 0x390, 0x3B0, 0xFB00, 0xFB06, 0x1E96]
@@ -1543,9 +1554,30 @@ def orphan_cases(rng, quick=True):
     return dirs
 
 
+def single_slot_cases():
+    """one long-name slot of every order / last-flag / checksum / deleted pattern, followed by a file, a directory, a label, a deleted
+    entry or the end"""
+    dirs = []
+    raw = [ord(c) for c in "TARGET  TXT"]
+    good = _chk(raw)
+    tail = [sfn_slot([ord(c) for c in "AFTER   BIN"], size=3)]
+    followers = [[sfn_slot(raw)], [sfn_slot(raw, attr=0x10)], [sfn_slot([ord(c) for c in "LABEL      "], attr=0x08)], [[0xE5] + sfn_slot(raw)[1:]], []]
+    for o in [0, 1, 2, 3, 4, 20, 21, 63]:
+        for last in (0, 0x40):
+            for ck in (good, good ^ 0x5A):
+                for dele in (False, True):
+                    for name in ([ord("a") + (o % 26)] + [0] + [0xFFFF] * 11, [ord("q")] * 13):
+                        s = lfn_slot(o | last, ck, name)
+                        if dele:
+                            s = [0xE5] + s[1:]
+                        for f in followers:
+                            dirs.append([s] + f + tail)
+    return dirs
+
+
 def dir_cases(rng, quick=True):
     """list of directories (lists of 32-byte slots)"""
-    dirs = orphan_cases(rng, quick)
+    dirs = orphan_cases(rng, quick) + single_slot_cases()
     raw = [ord(c) for c in "TARGET  TXT"]
     good = _chk(raw)
     tail = [sfn_slot([ord(c) for c in "AFTER   BIN"], size=3)]
